@@ -8,11 +8,20 @@ Correspondence (implementation vs the Lean models `Fc.Cli.fileReport` / `Fc.Cli.
 Search: the implementation's own (exit, report) against what C20 demands (`cli_scen.py_report_check`: report exists
 and is well-formed, counts match the test cases, failure/error shown iff exit status non-zero; skipped entries exactly
 the ignored-missing / filtered fields).  Violations inside the class of finding F5 (run fails although no report can be
-written, or fails by the suite's own status while no test case fails) are classified cls="F5"."""
+written, or fails by the suite's own status while no test case fails) are classified cls="F5" — only when the violated
+clauses are the two F5 speaks about (no report / non-zero exit without failure or error); a report that is not
+well-formed or whose counts are wrong is never inside that class.
+
+Phase 5 (`fcv/junit_p5c.py`, wrapping cli_scen): the whole run is made under `junit_p5c.strict()` — well-formedness is
+strict XML 1.0 (no character outside the `Char` production, e.g. no raw ESC of a colour sequence; expat + minidom must
+accept the bytes), the name pools contain XML-special / non-ASCII field names — and a directed batch in BOTH modes has
+data sets with EMPTY fields (tables without rows: header-only CSV files; on both sides = a passing comparison of empty
+arrays, on one side = unequal domains), to which the unchanged checks apply."""
 from __future__ import annotations
 import io
 
 from fcv import cli_scen as cs
+from fcv import junit_p5c as jp
 
 WHAT = "JUnit report does not agree with the exit status"
 
@@ -49,6 +58,14 @@ def _strip(rep):
 
 def _cls(f5):
     return "F5" if f5 is True else None
+
+
+F5_CLAUSES = {"no report file was written", "exit status non-zero but no failure/error in the report"}
+
+
+def _within_f5(bad) -> bool:
+    """the F5 class is about a failing run whose report is missing or shows no failure/error — nothing else"""
+    return all(b in F5_CLAUSES for b in bad)
 
 
 def evaluate_files(ctx, items, wd):
@@ -101,7 +118,7 @@ def evaluate_files(ctx, items, wd):
                 # mesh tolerance comparable to the point spacing): the class of the run cannot be determined
                 ctx.dist["unclassified-outside-hyp"] += 1
                 continue
-            cls = "F5" if (lean_cls == "F5" if hyp else ev["f5"] is True) else None
+            cls = "F5" if (lean_cls == "F5" if hyp else ev["f5"] is True) and _within_f5(bad) else None
             if cls is None:
                 r2 = cs.run_file_scenario(sc, wd, junit=True)
                 if cs.outcome_class(r2["out"]) != oc or _strip(r2["rep"]) != _strip(r["rep"]):
@@ -168,7 +185,7 @@ def evaluate_dirs(ctx, items, wd):
             if not hyp and py_f5 is None:
                 ctx.dist["unclassified-outside-hyp"] += 1
                 continue
-            cls = "F5" if (lean_cls == "F5" if hyp else py_f5 is True) else None
+            cls = "F5" if (lean_cls == "F5" if hyp else py_f5 is True) and _within_f5(bad) else None
             ctx.violation(d, [r["out"], r["rep"]], "; ".join(bad), cls=cls, what=WHAT + " (directory mode)")
             continue
         # one suite per file: every file the harness created and that is not silently filtered shows up once
@@ -182,17 +199,30 @@ def evaluate_dirs(ctx, items, wd):
 def run(ctx):
     ctx.rule = ("cases = file-mode scenarios of C04 run with --junit-xml, and directory-mode runs over generated trees "
                 "(0-5 relative paths in up to two sub-directory levels: pairs of tables (.csv / .tbl) with edits, one-sided "
-                "files, unsupported files, files removed by --include/--exclude-files; all flag combinations); "
+                "files, unsupported files, files removed by --include/--exclude-files; all flag combinations); plus a directed "
+                "batch in both modes with tables WITHOUT rows (header-only files) on both sides / one side; field names "
+                "include XML-special and non-ASCII characters; "
                 "non-trivial = file scenario with an edit/damage/flag tag resp. a tree with at least one file; "
                 "distinct = distinct protocol line")
     ctx.assumptions += [
-        "xml.etree.ElementTree parses the report (well-formedness = it parses)",
+        "well-formedness = the bytes of the report decode in the declared encoding, contain only characters of the XML 1.0 "
+        "Char production (also through character references), and expat, minidom and ElementTree parse them",
+        "a header-only CSV file is a table without rows whose columns are empty non-float arrays (side-checked on every "
+        "such file through the public reader; modelled as empty i64 columns: exact comparison)",
         "a JUnit consumer classifies a test case by its children: error > failure > skipped > passed",
         "directory categories (compared / missing / unsupported / filtered) are the ground truth of the tree the harness "
         "created, with the real fnmatch; os.walk is trusted",
         "all assumptions of C04 (readers, float(), fnmatch, mesh alignment inside meshHyp, numeric verdict of cluster A)",
     ]
     children_table(ctx)
+    with jp.strict() as st:
+        _run_scenarios(ctx)
+    ctx.extra["reports_checked_strictly"] = st.n_checked
+    for why in st.reasons:
+        ctx.notes.append("report rejected by the strict XML 1.0 check: " + why)
+
+
+def _run_scenarios(ctx):
     wd = cs.Workdir()
     try:
         n_file = ctx.scale(900, 40000)
@@ -208,6 +238,9 @@ def run(ctx):
             items = [cs.gen_dir_scenario(ctx.rng) for _ in range(min(100, n_dir - done))]
             evaluate_dirs(ctx, items, wd)
             done += len(items)
+        # phase 5, directed: data sets with empty fields (tables without rows) in both modes
+        evaluate_files(ctx, [jp.gen_empty_file_scenario(ctx.rng, k) for k in range(ctx.scale(60, 2000))], wd)
+        evaluate_dirs(ctx, [jp.gen_empty_dir_scenario(ctx.rng, k) for k in range(ctx.scale(32, 800))], wd)
         ctx.extra["f5_candidates"] = sum(1 for v in ctx.spec_viol if v.get("class") == "F5")
         # keep one small representative per class first
         ctx.spec_viol.sort(key=lambda v: (v.get("class") is not None, len(str(v["case"]))))
@@ -217,6 +250,11 @@ def run(ctx):
 
 def _check_case(ctx, case):
     """-> (violated clauses, impl observable, class)"""
+    with jp.strict(extend_names=False):
+        return _check_case_strict(ctx, case)
+
+
+def _check_case_strict(ctx, case):
     wd = cs.Workdir()
     try:
         if "files" in case:
@@ -228,7 +266,8 @@ def _check_case(ctx, case):
             r = cs.run_file_scenario(case, wd, junit=True)
             oc = cs.outcome_class(r["out"])
             f5 = cs.py_eval(case)["f5"] is True
-        return cs.py_report_check(oc, r["rep"]), [r["out"], r["rep"]], "F5" if f5 else None
+        bad = cs.py_report_check(oc, r["rep"])
+        return bad, [r["out"], r["rep"]], "F5" if f5 and _within_f5(bad) else None
     finally:
         wd.close()
 
